@@ -215,4 +215,14 @@ def encPath (p : Path) : Json :=
   .arr #["path", .arr (p.parts.map encPart).toArray, .bool p.concrete, .str (encDatumMod p.datum),
          .str (encMultiMod p.multi), encOptVal p.source]
 
+def encArg : Arg → Json
+  | .lit v => .arr #["lit", encVal v]
+  | .path p => .arr #["path", encPath p]
+
+def encCond (c : Cond Arg) : Json := encCondWith encArg c
+
+def encRule (r : RuleM) : Json :=
+  .arr #["rule", encPath r.path, encCond r.cond,
+         .arr (r.cast.map (fun tf => Json.arr #[.str (pyTypeName tf.1), .str tf.2])).toArray]
+
 end Valida.Codec
